@@ -8,6 +8,9 @@ R18.2 who-computes: every arithmetic with the constant FIRST_USER_TOKEN in parol
       a search checked by R18.1, (b) an enumerate() index / a length, or subtracts it from a terminal index
       (inverse mapping).  Anything else is an unreviewed way of numbering terminals.
 R18.3 FIRST_USER_TOKEN of the generator equals the runtime constant and is the successor of BLOCK_COMMENT.
+R18.5 no map / set keyed by components of a terminal's identity (hazard rule, expected count 0).
+R18.4 token numbers stored in the scanner configurations (skip lists, transitions) are renumbered by every function that
+      replaces the grammar after construction (see renumbering_on_grammar_change).
 """
 import re
 
@@ -183,6 +186,31 @@ def check(ctx):
               "FIRST_USER_TOKEN (%s) directly follows the last built-in token BLOCK_COMMENT (%s)" % (fut, bc),
               "FIRST_USER_TOKEN (%s) is not BLOCK_COMMENT+1 (%s): user terminals collide with or leave a gap after the "
               "built-in tokens" % (fut, bc), "crates/parol_runtime/src/lexer/token.rs", nontrivial=False)
+    renumbering_on_grammar_change(ctx, facts)
+    no_terminal_keyed_maps(ctx, facts)
+
+
+def _option_from_position(facts, body, term, depth=4):
+    """(body, position call) when an Option value is the result of Iterator::position, possibly produced inside the closure of
+    an Option::and_then / map chain (`x.and_then(|..| table.iter().position(..)).map_or(d, |i| i + FIRST)`)"""
+    if depth <= 0 or term[0] != "call":
+        return None
+    c = term[1]
+    if c.names() & {"std::iter::Iterator::position", "std::iter::Iterator::rposition"}:
+        return (body, c)
+    if c.path in ("std::option::Option::and_then", "std::option::Option::or_else", "std::option::Option::map"):
+        for a in c.args[1:]:
+            if a and a[0] in ("c", "m"):
+                d = single_def(body, a[1][0])
+                if d and d[0] == "assign" and d[3][0] == "agg" and d[3][1] == "closure":
+                    cl = facts.body_by_path_opt(d[3][2])
+                    if cl is None:
+                        continue
+                    for cc in cl.calls():
+                        if cc.dest == [0] and cc.names() & {"std::iter::Iterator::position", "std::iter::Iterator::rposition"}:
+                            return (cl, cc)
+        return _option_from_position(facts, body, operand_term(body, c.args[0]), depth - 1) if c.args else None
+    return None
 
 
 def classify_index_source(facts, b, op, checked_positions):
@@ -215,19 +243,23 @@ def classify_index_source(facts, b, op, checked_positions):
                 parent = facts.body_by_path_opt(b.parent)
                 if parent is not None:
                     for c in parent.calls():
-                        if c.path == "std::option::Option::map":
-                            cl = None
-                            a = c.args[1] if len(c.args) > 1 else None
-                            if a and a[0] in ("c", "m"):
-                                d = single_def(parent, a[1][0])
-                                if d and d[0] == "assign" and d[3][0] == "agg" and d[3][2] == b.path:
-                                    src = operand_term(parent, c.args[0])
-                                    if src[0] == "call" and src[1].names() & {"std::iter::Iterator::position"}:
-                                        k = (parent.crate + "|" + parent.dp, src[1].bb)
-                                        if k in checked_positions:
-                                            return "position-checked" if checked_positions[k] else \
-                                                "position-with-incomplete-key"
-                                        return "position-over-other-table"
+                        if c.path in ("std::option::Option::map", "std::option::Option::map_or", "std::option::Option::and_then",
+                                      "std::option::Option::map_or_else"):
+                            mine = False
+                            for a in c.args[1:]:
+                                if a and a[0] in ("c", "m"):
+                                    d = single_def(parent, a[1][0])
+                                    if d and d[0] == "assign" and d[3][0] == "agg" and d[3][2] == b.path:
+                                        mine = True
+                            if not mine:
+                                continue
+                            hit = _option_from_position(facts, parent, operand_term(parent, c.args[0]))
+                            if hit is not None:
+                                hb, hc = hit
+                                k = (hb.crate + "|" + hb.dp, hc.bb)
+                                if k in checked_positions:
+                                    return "position-checked" if checked_positions[k] else "position-with-incomplete-key"
+                                return "position-over-other-table"
                 return "closure-parameter"
             if elems and elems[0] == "0" and ty.startswith("(usize,"):
                 return "enumerate-index"
@@ -240,3 +272,93 @@ def classify_index_source(facts, b, op, checked_positions):
         if inner[0] == "call" and "std::iter::Iterator::next" in inner[1].names() and "Enumerate" in inner[1].self_ty:
             return "enumerate-index"
     return t[0]
+
+
+# ------------------------------------------------------------------------------------------------------------------ R18.4
+GC = "parol::generators::grammar_config::GrammarConfig"
+SCFG = "parol::generators::scanner_config::ScannerConfig"
+NUMBERED_FIELDS = ("skip_tokens", "transitions")
+
+
+def renumbering_on_grammar_change(ctx, facts):
+    """R18.4 token numbers stored outside the grammar follow the grammar: ScannerConfig.skip_tokens and ScannerConfig.transitions
+    hold terminal *numbers* (positions in Cfg::get_ordered_terminals, resolved when the grammar text is converted).  Every function
+    that replaces GrammarConfig.cfg after construction (update_cfg installs the left-factored / augmented grammar, whose terminals
+    can occur in a different order) must also rewrite both fields, and the new numbers must come from a search in the *new*
+    grammar's terminal table (a position over a value derived from the cfg parameter, checked by R18.1)."""
+    from .common import all_places, fn_key
+    writers = {}
+    for b in facts.in_crate(PA):
+        for bi, kind, p, line in all_places(b):
+            if kind == "w" and isinstance(p[-1], list) and p[-1][0] == "f" and p[-1][2] == "cfg" and p[-1][3] == GC:
+                writers.setdefault(b.root_fn(facts).path, (b, line))
+    post = {k: v for k, v in writers.items() if not (k.endswith("::new") or "Default" in k or "::with_" in k or "try_from" in k.lower())}
+    if not post:
+        raise AnchorMissing("no function replaces GrammarConfig.cfg after construction (update_cfg vanished?)")
+    for path, (b, line) in sorted(post.items()):
+        root = b.root_fn(facts)
+        fam = facts.family(root)
+        touched = set()
+        for fb in fam:
+            for bi, kind, p, l2 in all_places(fb):
+                for e in p[1:]:
+                    if isinstance(e, list) and e[0] == "f" and e[3] == SCFG and e[2] in NUMBERED_FIELDS:
+                        # written directly, or borrowed mutably (iter_mut / sort / dedup)
+                        if kind == "w":
+                            touched.add(e[2])
+            for bi, si, p, rv, l2, mac in fb.assigns():
+                if rv[0] == "ref" and rv[1] is True:
+                    for e in rv[-1][1:]:
+                        if isinstance(e, list) and e[0] == "f" and e[3] == SCFG and e[2] in NUMBERED_FIELDS:
+                            touched.add(e[2])
+        # the new numbers are looked up in a table derived from the new grammar (parameter) - some position() in the family
+        searches = [c for fb in fam for c in fb.calls() if (c.path or "").split("::")[-1] in ("position", "terminal_index")]
+        ok = set(NUMBERED_FIELDS) <= touched and bool(searches)
+        ctx.check(ok, "R18.4", "%s|renumbers-scanner-token-lists" % short(path),
+                  "%s rewrites ScannerConfig.skip_tokens and .transitions when it replaces the grammar" % short(path),
+                  "%s replaces GrammarConfig.cfg but leaves %s of the scanner configurations untouched: these lists hold terminal "
+                  "numbers of the *old* grammar; left factoring can move alternatives together and change the order of first "
+                  "occurrence, after which `%%on Q %%enter Other` switches the scanner on another terminal"
+                  % (short(path), sorted(set(NUMBERED_FIELDS) - touched) or "the lookup in the new grammar"), where(b, line))
+    ctx.require_floor("R18.4", "grammar_replacing_functions", len(post), 1)
+
+
+def no_terminal_keyed_maps(ctx, facts):
+    """R18.5 (added after seed C18-b; expected count 0) terminals are identified by the reviewed linear searches only: no
+    std::collections map / set in the parol library is keyed by components of a terminal's identity (a key type that mentions
+    LookaheadExpression or TerminalKind).  `TerminalKind` has no total equality that coincides with `behaves_like` (legacy and
+    regex literals behave alike), and a key without the kind merges 'x' with "x": a map lookup is therefore a new, unreviewed
+    way of identifying terminals."""
+    hits = []
+    n = 0
+    for b in facts.in_crate(PA):
+        n += 1
+        for i, (ty, name) in enumerate(b.locals):
+            if not ty.startswith("std::collections::"):
+                continue
+            head = ty.split("<", 1)[0]
+            if not head.endswith(("Map", "Set")):
+                continue
+            inner = ty.split("<", 1)[1] if "<" in ty else ""
+            # key = first type argument (up to the first top-level comma)
+            depth = 0
+            key = ""
+            for ch in inner:
+                if ch in "<([":
+                    depth += 1
+                elif ch in ">)]":
+                    depth -= 1
+                elif ch == "," and depth == 0:
+                    break
+                key += ch
+            if "LookaheadExpression" in key or "TerminalKind" in key:
+                hits.append((b, name or "_%d" % i, ty))
+    for b, name, ty in hits:
+        ctx.bad("R18.5", "%s|terminal-keyed-%s" % (fn_key(b, facts), name),
+                "`%s: %s` is an associative container keyed by parts of a terminal's identity: token numbers obtained from it do "
+                "not follow the identity that Cfg::get_ordered_terminals uses (text, kind through behaves_like, look-ahead); e.g. "
+                "a key without the kind gives '.' and \".\" the same token number in the production table while the scanner "
+                "keeps them apart" % (name, ty[:140]), where(b))
+    ctx.check(not hits, "R18.5", "no-terminal-keyed-maps", "no map/set keyed by terminal identity components in %d bodies" % n,
+              "%d such container(s)" % len(hits), nontrivial=False)
+    ctx.require_floor("R18.5", "bodies_scanned", n, 1000)
